@@ -67,7 +67,7 @@ def run(idx, rep, tier):
                     continue
                 n_store += 1
                 rs, vs = plain_sources(dt, m, recv), dt.flat(dt.eval_in(m, val))
-                site = f"{construct}:{recv}"
+                site = f"{construct}:store{n_store}"
                 if "unknown" in rs or "unknown" in vs:
                     rep.undecided("no-narrowing-store", site, f"in-place store into `{recv}` (typed by {sorted(rs)}) of a value typed by {sorted(vs)}", locs=[idx.loc(m.module, n)])
                     continue
@@ -189,14 +189,20 @@ def run(idx, rep, tier):
                        detail="" if ok else "not-inverse", locs=[idx.loc(f.module, c) for a, b, c, f in moves])
     if idx.has_cls("BlockDiag"):
         m = idx.cls("BlockDiag").methods.get("_matmat")
-        src = nospace(m.node)
-        ok = "multiplicity*M.shape[-1]" in src and "multiplicity*M.shape[0]" in norm_idx(src).replace("M.shape[0]", "M.shape[0]")
+        src = norm_idx(nospace(m.node))
+        loop = next((n for n in df.body_nodes(m.node) if isinstance(n, ast.For) and isinstance(n.target, ast.Tuple) and len(n.target.elts) == 2 and "multiplicities" in nospace(n.iter)), None)
+        ok = False
+        if loop is not None:
+            blk, mult = (e.id for e in loop.target.elts)
+            ok = (f"{mult}*{blk}.shape[1]" in src or f"{blk}.shape[1]*{mult}" in src) and (f"{mult}*{blk}.shape[0]" in src or f"{blk}.shape[0]*{mult}" in src)
         rep.decide(ok, "contraction", "BlockDiag._matmat", "input blocks use the blocks' column sizes, output blocks their row sizes" if ok else "block offsets do not use columns for the input and rows for the output",
                    detail="" if ok else "roles", locs=[idx.loc(m.module, m.node)])
     drm = base.methods.get("_rmatmat")
     if drm is not None:
         src = norm_idx(nospace(drm.node))
-        ok = "zeros(shape=(self.shape[1],XT.shape[1])" in src
+        xp = drm.params[1]
+        tname = next((n for n, vals in df.assignments(drm.node).items() for v, p_, st in vals if nospace(v) == f"{xp}.T"), None)
+        ok = tname is not None and f"zeros(shape=(self.shape[1],{tname}.shape[1])" in src
         rep.decide(ok, "generic-path", "LinearOperator._rmatmat:primals", "linear-transpose primal has the forward operand's shape (C, k)" if ok else "primal shape is not (C, k)", detail="" if ok else "shape",
                    locs=[idx.loc(drm.module, drm.node)])
     rep.floor("no-narrowing-store", 2)
